@@ -86,7 +86,8 @@ func domainFor(prop string) domain {
 		// mostly clean runs; element failures exercise "End hook never after a failed element"
 		d.pFault, d.perUnit, d.panics, d.elemFault = 0.3, 0, 0.4, 0.3
 	case "C03":
-		d.pFault, d.perUnit, d.elemFault, d.goexit = 0.4, 0.3, 0.2, 0.6
+		d.pFault, d.perUnit, d.elemFault, d.goexit = 0.3, 0.2, 0.15, 0.6
+		d.sleepy = 0.8 // overlapping executions are what the limit is about
 	case "C15":
 	case "C01":
 		d.pFault, d.perUnit, d.panics = 0.4, 0.2, 0.3
@@ -143,7 +144,7 @@ func genScenario(t *rapid.T, s *rt.Spec, d domain) *rt.Scenario {
 			} else if prob(t, "panic", d.panics) {
 				o.K, o.PV = rt.OPanic, uniform(t, "pv", 9)
 			} else {
-				o.K, o.EV = rt.OErr, []int{0, 0, 0, 0, 1, 2, 3, 3}[uniform(t, "ev", 8)]
+				o.K, o.EV = rt.OErr, []int{0, 0, 0, 0, 1, 2, 3, 3, 4}[uniform(t, "ev", 9)]
 			}
 		}
 	}
